@@ -38,125 +38,412 @@ Proof. unfold yupd. intro H. destruct (m =? n) eqn:E; [apply N.eqb_eq in E; cong
 Lemma syncs_one x : syncs [x] = if is_sync x then [snd x] else [].
 Proof. unfold syncs. cbn [flat_map]. rewrite app_nil_r. reflexivity. Qed.
 
+Lemma rvals_app a b : rvals (a ++ b) = rvals a ++ rvals b.
+Proof. unfold rvals. apply flat_map_app. Qed.
+Lemma wvals_app a b : wvals (a ++ b) = wvals a ++ wvals b.
+Proof. unfold wvals. apply flat_map_app. Qed.
+Lemma ncloses_app a b : ncloses (a ++ b) = (ncloses a + ncloses b)%nat.
+Proof. unfold ncloses. rewrite filter_app, app_length. reflexivity. Qed.
+Lemma nverdicts_app a b : nverdicts (a ++ b) = (nverdicts a + nverdicts b)%nat.
+Proof. unfold nverdicts. rewrite filter_app, app_length. reflexivity. Qed.
+Lemma length_ritems l : length l = (length (rvals l) + nverdicts l)%nat.
+Proof.
+  induction l as [|[v|] l IH]; [reflexivity| |]; unfold rvals, nverdicts in *; cbn [flat_map filter length app];
+    rewrite IH; lia.
+Qed.
+Lemma length_witems l : length l = (length (wvals l) + ncloses l)%nat.
+Proof.
+  induction l as [|[v|] l IH]; [reflexivity| |]; unfold wvals, ncloses in *; cbn [flat_map filter length app];
+    rewrite IH; lia.
+Qed.
+
+(* the server sends nothing on a channel after closing it: in what is on the wire for that
+   channel the Channel.Close, if any, is the last item *)
+Fixpoint close_lastb (l : list witem) : bool :=
+  match l with
+  | [] => true
+  | WClose :: t => match t with [] => true | _ => false end
+  | WReply _ :: t => close_lastb t
+  end.
+
+Lemma close_lastb_snoc l : ncloses l = 0%nat -> close_lastb (l ++ [WClose]) = true.
+Proof.
+  induction l as [|[v|] l IH]; intro H; [reflexivity| |cbn in H; discriminate].
+  cbn [app close_lastb]. apply IH. exact H.
+Qed.
+
+Lemma close_lastb_tail x l : close_lastb (x :: l) = true -> close_lastb l = true.
+Proof. destruct x; cbn [close_lastb]; [auto|]. destruct l; [reflexivity|discriminate]. Qed.
+
 Section Safety.
   Variable answer : N -> N -> N.
   Variables bound qcap : N.
   Variable progs : N -> list call.
-  Hypothesis Hq : 1 <= qcap.
+  (* the capacity the code gives a reply queue: one reply and one verdict fit *)
+  Hypothesis Hq : 2 <= qcap.
+
+  (* a channel the server has not closed *)
+  Definition open_inv (s : sys) (n : N) : Prop :=
+    let c := y_ch s n in
+    map (answer n) (syncs (yc_issued c)) = yc_results c ++ inflight answer s n /\
+    (length (inflight answer s n) <= 1)%nat /\
+    (yc_failed c = false -> length (inflight answer s n) = (if yc_wait c then 1 else 0)%nat) /\
+    (yc_failed c = true -> y_dead s = true /\ yc_wait c = false) /\
+    projc n (y_seen s) ++ projc n (y_outwire s) ++ projc n (y_outbuf s) ++ yc_mail c = yc_issued c /\
+    nverdicts (yc_replyq c) = 0%nat /\ ncloses (projc n (y_inwire s)) = 0%nat /\ yc_slot_gone c = false.
+
+  (* a channel the server has closed: what was delivered, and what still will be, are the right
+     answers in order; at most one reply and the one verdict are on their way *)
+  Definition closed_inv (s : sys) (n : N) : Prop :=
+    let c := y_ch s n in
+    (exists tail, map (answer n) (syncs (yc_issued c)) =
+                  yc_results c ++ rvals (yc_replyq c) ++ wvals (projc n (y_inwire s)) ++ tail) /\
+    (length (rvals (yc_replyq c) ++ wvals (projc n (y_inwire s))) <= 1)%nat /\
+    (nverdicts (yc_replyq c) + ncloses (projc n (y_inwire s)) <= 1)%nat /\
+    ((yc_slot_gone c = true -> projc n (y_inwire s) = []) /\ close_lastb (projc n (y_inwire s)) = true) /\
+    yc_pend c = [] /\
+    (yc_wait c = true -> yc_failed c = false).
 
   Definition chan_inv (s : sys) (n : N) : Prop :=
     let c := y_ch s n in
-    map (answer n) (syncs (yc_issued c)) = yc_results c ++ inflight answer s n /\
-    (yc_failed c = false -> length (inflight answer s n) = (if yc_wait c then 1 else 0)%nat) /\
     yc_issued c ++ yc_prog c = progs n /\
-    (yc_failed c = true -> y_dead s = true /\ yc_wait c = false) /\
-    projc n (y_seen s) ++ projc n (y_outwire s) ++ projc n (y_outbuf s) ++ yc_mail c = yc_issued c.
+    (yc_srv_closed c = false -> open_inv s n) /\
+    (yc_srv_closed c = true -> closed_inv s n).
 
   Definition YInv (s : sys) : Prop := y_fail s = false /\ forall n, chan_inv s n.
 
   Lemma YInv_init : YInv (init_sys progs).
-  Proof. split; [reflexivity|]. intro n. repeat split; cbn; intros; discriminate. Qed.
+  Proof.
+    split; [reflexivity|]. intro n. split; [reflexivity|]. split; [|discriminate].
+    intros _. repeat split; cbn; intros; try discriminate; lia.
+  Qed.
+
+  (* ---- a channel an action does not touch ---- *)
+  Record same_for (m : N) (s s' : sys) : Prop := {
+    sf_ch : y_ch s' m = y_ch s m;
+    sf_in : projc m (y_inwire s') = projc m (y_inwire s);
+    sf_seen : projc m (y_seen s') = projc m (y_seen s);
+    sf_out : projc m (y_outwire s') ++ projc m (y_outbuf s') = projc m (y_outwire s) ++ projc m (y_outbuf s);
+    sf_dead : y_dead s = true -> y_dead s' = true }.
+
+  Lemma inflight_grouped s n :
+    inflight answer s n =
+    rvals (yc_replyq (y_ch s n)) ++ wvals (projc n (y_inwire s)) ++ map (answer n) (yc_pend (y_ch s n)) ++
+    map (answer n) (syncs ((projc n (y_outwire s) ++ projc n (y_outbuf s)) ++ yc_mail (y_ch s n))).
+  Proof. unfold inflight. rewrite <- app_assoc. reflexivity. Qed.
+
+  Lemma chan_inv_same m s s' : same_for m s s' -> chan_inv s m -> chan_inv s' m.
+  Proof.
+    intros [Hc Hi Hs Ho Hd] (HP & HO & HC). unfold chan_inv. rewrite Hc.
+    split; [exact HP|]. split.
+    - intro E. specialize (HO E). unfold open_inv in *. rewrite !inflight_grouped in *. rewrite Hc, Hi, Ho.
+      destruct HO as (H1 & H2 & H3 & H4 & H5 & H6 & H7 & H8).
+      split; [exact H1|]. split; [exact H2|]. split; [exact H3|]. split.
+      { intro F. destruct (H4 F) as [D W]. split; [apply Hd; exact D|exact W]. }
+      split.
+      { rewrite Hs. rewrite (app_assoc (projc m (y_outwire s'))), Ho, <- app_assoc. exact H5. }
+      split; [exact H6|]. split; [exact H7|exact H8].
+    - intro E. specialize (HC E). unfold closed_inv in *. rewrite Hc, Hi. exact HC.
+  Qed.
 
   Ltac chan_cases m n :=
     destruct (N.eq_dec m n) as [->|Hmn];
     [rewrite ?yupd_same|rewrite ?(yupd_other _ _ Hmn)].
-
-  Ltac norm := repeat progress (rewrite ?projc_app, ?syncs_app, ?map_app, ?syncs_one, ?app_nil_r in * );
+  Ltac norm := repeat progress (rewrite ?projc_app, ?syncs_app, ?map_app, ?syncs_one, ?rvals_app, ?wvals_app, ?app_nil_r in * );
                rewrite <- ?app_assoc in *.
   Ltac normlen := rewrite ?app_length, ?map_length in *.
-  Ltac fields := cbn [yc_issued yc_results yc_replyq yc_pend yc_mail yc_wait yc_prog yc_failed].
-  Ltac open m H := intro m; specialize (H m); unfold chan_inv, inflight in *;
-                   cbn [with_ch y_ch y_inwire y_outwire y_outbuf y_dead y_seen].
+  Ltac fields := cbn [yc_issued yc_results yc_replyq yc_pend yc_mail yc_wait yc_prog yc_failed yc_srv_closed yc_slot_gone
+                      ch_set_mail ch_set_pend ch_set_replyq].
+  (* an action that changes only the channel record of n leaves every other channel as it was *)
+  Ltac other_by_ch s m Hmn H :=
+    apply (@chan_inv_same m s); [|exact (H m)];
+    constructor; cbn [with_ch y_ch y_inwire y_outwire y_outbuf y_seen y_dead];
+    rewrite ?(yupd_other _ _ Hmn); try reflexivity; try (intro; assumption).
+
+  Lemma step_send s n : YInv s -> YInv (ystep answer bound qcap s (ASend n)).
+  Proof.
+    intros [Hf H]. unfold ystep. rewrite Hf.
+    destruct (yc_wait (y_ch s n)) eqn:Hw; [split; assumption|].
+    destruct (yc_failed (y_ch s n)) eqn:Hfl; [split; assumption|]. cbn [orb].
+    destruct (yc_prog (y_ch s n)) as [|x rest] eqn:Hp; [split; assumption|].
+    destruct (y_dead s || yc_slot_gone (y_ch s n)) eqn:Hgone.
+    - (* the send fails *)
+      split; [exact Hf|]. intro m. destruct (N.eq_dec m n) as [->|Hmn]; [|other_by_ch s m Hmn H].
+      destruct (H n) as (HP & HO & HC). unfold chan_inv. cbn [with_ch y_ch]. rewrite yupd_same. fields.
+      split; [rewrite Hp in HP; exact HP|]. split.
+      + intro E. specialize (HO E). unfold open_inv, inflight in *. cbn [with_ch y_ch y_inwire y_outwire y_outbuf y_seen y_dead].
+        rewrite yupd_same. fields. destruct HO as (H1 & H2 & H3 & H4 & H5 & H6 & H7 & H8).
+        split; [exact H1|]. split; [exact H2|]. split; [discriminate|]. split.
+        { intros _. rewrite H8, orb_false_r in Hgone. split; [exact Hgone|reflexivity]. }
+        split; [exact H5|]. split; [exact H6|]. split; [exact H7|exact H8].
+      + intro E. specialize (HC E). unfold closed_inv in *. cbn [with_ch y_ch y_inwire].
+        rewrite yupd_same. fields. destruct HC as (G1 & G2 & G3 & G4 & G5 & G6).
+        split; [exact G1|]. split; [exact G2|]. split; [exact G3|]. split; [exact G4|]. split; [exact G5|discriminate].
+    - destruct (_ <? bound); [|split; assumption].
+      apply orb_false_iff in Hgone as [Hd Hg].
+      split; [exact Hf|]. intro m. destruct (N.eq_dec m n) as [->|Hmn]; [|other_by_ch s m Hmn H].
+      destruct (H n) as (HP & HO & HC). unfold chan_inv. cbn [with_ch y_ch]. rewrite yupd_same. fields.
+      split; [rewrite Hp in HP; rewrite <- app_assoc; exact HP|]. split.
+      + intro E. specialize (HO E). unfold open_inv, inflight in *. cbn [with_ch y_ch y_inwire y_outwire y_outbuf y_seen y_dead].
+        rewrite yupd_same. fields. rewrite Hw, Hfl in HO. destruct HO as (H1 & H2 & H3 & H4 & H5 & H6 & H7 & H8).
+        specialize (H3 eq_refl). norm.
+        split; [rewrite H1; rewrite <- ?app_assoc; reflexivity|].
+        assert (L : length (rvals (yc_replyq (y_ch s n)) ++ wvals (projc n (y_inwire s)) ++ map (answer n) (yc_pend (y_ch s n)) ++
+                            map (answer n) (syncs (projc n (y_outwire s))) ++ map (answer n) (syncs (projc n (y_outbuf s))) ++
+                            map (answer n) (syncs (yc_mail (y_ch s n))) ++ map (answer n) (if is_sync x then [snd x] else []))
+                    = (if is_sync x then 1 else 0)%nat).
+        { normlen. normlen. destruct (is_sync x); cbn [length map]; lia. }
+        split; [rewrite L; destruct (is_sync x); lia|]. split; [intros _; exact L|]. split; [discriminate|].
+        split; [rewrite <- H5; rewrite <- ?app_assoc; reflexivity|]. split; [exact H6|]. split; [exact H7|exact H8].
+      + intro E. specialize (HC E). unfold closed_inv in *. cbn [with_ch y_ch y_inwire].
+        rewrite yupd_same. fields. destruct HC as ((tail & G1) & G2 & G3 & G4 & G5 & G6).
+        split.
+        { exists (tail ++ map (answer n) (if is_sync x then [snd x] else [])). norm. rewrite G1. rewrite <- ?app_assoc. reflexivity. }
+        split; [exact G2|]. split; [exact G3|]. split; [exact G4|]. split; [exact G5|reflexivity].
+  Qed.
+
+  Lemma step_recv s n : YInv s -> YInv (ystep answer bound qcap s (ARecv n)).
+  Proof.
+    intros [Hf H]. unfold ystep. rewrite Hf.
+    destruct (yc_wait (y_ch s n)) eqn:Hw; [|split; assumption].
+    destruct (yc_replyq (y_ch s n)) as [|[v|] rest] eqn:Hr.
+    - (* empty *)
+      destruct (y_dead s || yc_slot_gone (y_ch s n)) eqn:Hgone; [|split; assumption].
+      split; [exact Hf|]. intro m. destruct (N.eq_dec m n) as [->|Hmn]; [|other_by_ch s m Hmn H].
+      destruct (H n) as (HP & HO & HC). unfold chan_inv. cbn [with_ch y_ch]. rewrite yupd_same. fields.
+      split; [exact HP|]. split.
+      + intro E. specialize (HO E). unfold open_inv, inflight in *. cbn [with_ch y_ch y_inwire y_outwire y_outbuf y_seen y_dead].
+        rewrite yupd_same. fields. rewrite Hr in HO. destruct HO as (H1 & H2 & H3 & H4 & H5 & H6 & H7 & H8).
+        split; [exact H1|]. split; [exact H2|]. split; [discriminate|]. split.
+        { intros _. rewrite H8, orb_false_r in Hgone. split; [exact Hgone|reflexivity]. }
+        split; [exact H5|]. split; [reflexivity|]. split; [exact H7|exact H8].
+      + intro E. specialize (HC E). unfold closed_inv in *. cbn [with_ch y_ch y_inwire].
+        rewrite yupd_same. fields. rewrite Hr in HC. destruct HC as (G1 & G2 & G3 & G4 & G5 & G6).
+        split; [exact G1|]. split; [exact G2|]. split; [exact G3|]. split; [exact G4|]. split; [exact G5|discriminate].
+    - (* a reply *)
+      split; [exact Hf|]. intro m. destruct (N.eq_dec m n) as [->|Hmn]; [|other_by_ch s m Hmn H].
+      destruct (H n) as (HP & HO & HC). unfold chan_inv. cbn [with_ch y_ch]. rewrite yupd_same. fields.
+      split; [exact HP|]. split.
+      + intro E. specialize (HO E). unfold open_inv, inflight in *. cbn [with_ch y_ch y_inwire y_outwire y_outbuf y_seen y_dead].
+        rewrite yupd_same. fields. rewrite Hw, Hr in HO. destruct HO as (H1 & H2 & H3 & H4 & H5 & H6 & H7 & H8).
+        change (rvals (RVal v :: rest)) with (v :: rvals rest) in *. cbn [app length] in *.
+        split; [rewrite H1; rewrite <- app_assoc; reflexivity|]. split; [lia|]. split.
+        { intro F. specialize (H3 F). lia. }
+        split; [intro F; destruct (H4 F); discriminate|]. split; [exact H5|].
+        split; [exact H6|]. split; [exact H7|exact H8].
+      + intro E. specialize (HC E). unfold closed_inv in *. cbn [with_ch y_ch y_inwire].
+        rewrite yupd_same. fields. rewrite Hr in HC. destruct HC as ((tail & G1) & G2 & G3 & G4 & G5 & G6).
+        change (rvals (RVal v :: rest)) with (v :: rvals rest) in *. change (nverdicts (RVal v :: rest)) with (nverdicts rest) in *.
+        cbn [app length] in *.
+        split; [exists tail; rewrite G1; rewrite <- app_assoc; reflexivity|]. split; [lia|]. split; [exact G3|].
+        split; [exact G4|]. split; [exact G5|discriminate].
+    - (* the verdict *)
+      split; [exact Hf|]. intro m. destruct (N.eq_dec m n) as [->|Hmn]; [|other_by_ch s m Hmn H].
+      destruct (H n) as (HP & HO & HC). unfold chan_inv. cbn [with_ch y_ch]. rewrite yupd_same. fields.
+      split; [exact HP|]. split.
+      + intro E. specialize (HO E). unfold open_inv in HO. rewrite Hr in HO. destruct HO as (_ & _ & _ & _ & _ & H6 & _).
+        change (nverdicts (RVerdict :: rest)) with (S (nverdicts rest)) in H6. discriminate.
+      + intro E. specialize (HC E). unfold closed_inv in *. cbn [with_ch y_ch y_inwire].
+        rewrite yupd_same. fields. rewrite Hr in HC. destruct HC as (G1 & G2 & G3 & G4 & G5 & G6).
+        change (rvals (RVerdict :: rest)) with (rvals rest) in *. change (nverdicts (RVerdict :: rest)) with (S (nverdicts rest)) in *.
+        split; [exact G1|]. split; [exact G2|]. split; [lia|]. split; [exact G4|]. split; [exact G5|discriminate].
+  Qed.
+
+  Lemma step_drain s n k : YInv s -> YInv (ystep answer bound qcap s (ADrain n k)).
+  Proof.
+    intros [Hf H]. unfold ystep. rewrite Hf.
+    destruct (y_dead s || yc_slot_gone (y_ch s n)) eqn:Hgone; [split; assumption|].
+    apply orb_false_iff in Hgone as [Hd Hg].
+    split; [reflexivity|]. intro m. destruct (N.eq_dec m n) as [->|Hmn].
+    - destruct (H n) as (HP & HO & HC). unfold chan_inv. cbn [y_ch]. rewrite yupd_same. fields.
+      split; [exact HP|]. split.
+      + intro E. specialize (HO E). unfold open_inv, inflight in *. cbn [y_ch y_inwire y_outwire y_outbuf y_seen y_dead].
+        rewrite yupd_same. fields.
+        rewrite <- (firstn_skipn k (yc_mail (y_ch s n))) in HO at 1 2 3 4. norm. rewrite projc_map_same. norm.
+        destruct HO as (H1 & H2 & H3 & H4 & H5 & H6 & H7 & H8).
+        split; [exact H1|]. split; [exact H2|]. split; [exact H3|]. split; [exact H4|]. split; [exact H5|].
+        split; [exact H6|]. split; [exact H7|exact H8].
+      + intro E. specialize (HC E). unfold closed_inv in *. cbn [y_ch y_inwire]. rewrite yupd_same. fields. exact HC.
+    - apply (@chan_inv_same m s); [|exact (H m)].
+      constructor; cbn [y_ch y_inwire y_outwire y_outbuf y_seen y_dead]; rewrite ?(yupd_other _ _ Hmn); try reflexivity.
+      + rewrite projc_app, (projc_map_other _ Hmn), app_nil_r. reflexivity.
+      + intro D. congruence.
+  Qed.
+
+  Lemma step_write s k : YInv s -> YInv (ystep answer bound qcap s (AWrite k)).
+  Proof.
+    intros [Hf H]. unfold ystep. rewrite Hf.
+    destruct (y_dead s) eqn:Hd; [split; assumption|].
+    split; [reflexivity|]. intro m. apply (@chan_inv_same m s); [|exact (H m)].
+    constructor; cbn [y_ch y_inwire y_outwire y_outbuf y_seen y_dead]; try reflexivity.
+    - rewrite projc_app, <- app_assoc, projc_firstn_skipn. reflexivity.
+    - intro D. congruence.
+  Qed.
+
+  Lemma step_die s : YInv s -> YInv (ystep answer bound qcap s ADie).
+  Proof.
+    intros [Hf H]. unfold ystep. rewrite Hf.
+    split; [reflexivity|]. intro m. apply (@chan_inv_same m s); [|exact (H m)].
+    constructor; cbn [y_ch y_inwire y_outwire y_outbuf y_seen y_dead]; reflexivity.
+  Qed.
+
+  Lemma step_srvread s : YInv s -> YInv (ystep answer bound qcap s ASrvRead).
+  Proof.
+    intros [Hf H]. unfold ystep. rewrite Hf.
+    destruct (y_outwire s) as [|[n x] rest] eqn:Ho; [split; assumption|].
+    split; [reflexivity|]. intro m. destruct (N.eq_dec m n) as [->|Hmn].
+    - destruct (H n) as (HP & HO & HC). unfold chan_inv.
+      destruct (yc_srv_closed (y_ch s n)) eqn:Ecl.
+      + (* closed: the request is discarded *)
+        cbn [negb]. rewrite andb_false_r. cbn [y_ch]. split; [exact HP|]. split; [intro; congruence|].
+        intros _. specialize (HC eq_refl). unfold closed_inv in *. cbn [y_ch y_inwire]. exact HC.
+      + cbn [negb]. rewrite andb_true_r. specialize (HO eq_refl).
+        unfold open_inv, inflight in *. rewrite Ho, projc_cons, N.eqb_refl in HO.
+        destruct (is_sync x) eqn:Hs.
+        * cbn [y_ch y_inwire y_outwire y_outbuf y_seen y_dead]. unfold yupd. rewrite !N.eqb_refl. fields. split; [exact HP|]. split; [|intro; congruence].
+          intros _.
+          rewrite projc_app, (projc_cons n n x []), N.eqb_refl. change (projc n (@nil (N * call))) with (@nil call).
+          norm. rewrite Hs in HO. cbn [map app] in *.
+          destruct HO as (H1 & H2 & H3 & H4 & H5 & H6 & H7 & H8).
+          split; [exact H1|]. split; [normlen; normlen; cbn [length] in *; lia|]. split.
+          { intro F. specialize (H3 F). normlen. normlen. cbn [length] in *. lia. }
+          split; [exact H4|]. split; [exact H5|]. split; [exact H6|]. split; [exact H7|exact H8].
+        * cbn [y_ch]. split; [exact HP|]. split; [|intro; congruence].
+          intros _. cbn [y_ch y_inwire y_outwire y_outbuf y_seen y_dead].
+          rewrite projc_app, (projc_cons n n x []), N.eqb_refl. change (projc n (@nil (N * call))) with (@nil call).
+          norm. rewrite Hs in HO. cbn [map app] in *. exact HO.
+    - apply (@chan_inv_same m s); [|exact (H m)].
+      constructor; cbn [y_ch y_inwire y_outwire y_outbuf y_seen y_dead].
+      + destruct (is_sync x && negb (yc_srv_closed (y_ch s n))); [rewrite (yupd_other _ _ Hmn)|]; reflexivity.
+      + reflexivity.
+      + rewrite projc_app, projc_cons. destruct (n =? m) eqn:E; [apply N.eqb_eq in E; congruence|].
+        cbn [app]. change (projc m (@nil (N * call))) with (@nil call). apply app_nil_r.
+      + rewrite Ho, projc_cons. destruct (n =? m) eqn:E; [apply N.eqb_eq in E; congruence|]. reflexivity.
+      + intro D; exact D.
+  Qed.
+
+  Ltac other_by_wire s m n Hmn H :=
+    apply (@chan_inv_same m s); [|exact (H m)];
+    constructor; cbn [y_ch y_inwire y_outwire y_outbuf y_seen y_dead];
+    rewrite ?(yupd_other _ _ Hmn); try reflexivity; try (intro; assumption);
+    rewrite ?projc_app, ?projc_cons;
+    (destruct (n =? m) eqn:?E; [apply N.eqb_eq in E; congruence|]);
+    cbn [app]; rewrite ?app_nil_r; reflexivity.
+
+  Lemma step_answer s n : YInv s -> YInv (ystep answer bound qcap s (ASrvAnswer n)).
+  Proof.
+    intros [Hf H]. unfold ystep. rewrite Hf.
+    destruct (yc_pend (y_ch s n)) as [|r rest] eqn:Hp; [split; assumption|].
+    split; [reflexivity|]. intro m. destruct (N.eq_dec m n) as [->|Hmn]; [|other_by_wire s m n Hmn H].
+    destruct (H n) as (HP & HO & HC). unfold chan_inv. cbn [y_ch]. unfold yupd. rewrite !N.eqb_refl. fields.
+    split; [exact HP|]. split.
+    - intro E. specialize (HO E). unfold open_inv, inflight in *. cbn [y_ch y_inwire y_outwire y_outbuf y_seen y_dead].
+      unfold yupd. rewrite !N.eqb_refl. fields. rewrite Hp in HO.
+      rewrite projc_app, (projc_cons n n (WReply (answer n r)) []), N.eqb_refl.
+      change (projc n (@nil (N * witem))) with (@nil witem). norm.
+      change (wvals [WReply (answer n r)]) with [answer n r]. cbn [map app] in *.
+      destruct HO as (H1 & H2 & H3 & H4 & H5 & H6 & H7 & H8).
+      split; [exact H1|]. split. { normlen. normlen. cbn [length] in *. exact H2. } split.
+      { intro F. specialize (H3 F). normlen. normlen. cbn [length] in *. exact H3. }
+      split; [exact H4|]. split; [exact H5|]. split; [exact H6|]. split; [rewrite ncloses_app, H7; reflexivity|exact H8].
+    - intro E. destruct (HC E) as (_ & _ & _ & _ & G5 & _). congruence.
+  Qed.
+
+  Lemma step_close s n : YInv s -> YInv (ystep answer bound qcap s (ASrvClose n)).
+  Proof.
+    intros [Hf H]. unfold ystep. rewrite Hf.
+    destruct (yc_srv_closed (y_ch s n)) eqn:Ecl; [split; assumption|].
+    split; [reflexivity|]. intro m. destruct (N.eq_dec m n) as [->|Hmn]; [|other_by_wire s m n Hmn H].
+    destruct (H n) as (HP & HO & _). specialize (HO Ecl).
+    unfold chan_inv. cbn [y_ch]. unfold yupd. rewrite !N.eqb_refl. fields.
+    split; [exact HP|]. split; [discriminate|]. intros _.
+    unfold open_inv, inflight, closed_inv in *. cbn [y_ch y_inwire]. unfold yupd. rewrite !N.eqb_refl. fields.
+    rewrite projc_app, (projc_cons n n WClose []), N.eqb_refl. change (projc n (@nil (N * witem))) with (@nil witem).
+    rewrite wvals_app, ncloses_app. change (wvals [WClose]) with (@nil N). change (ncloses [WClose]) with 1%nat. rewrite app_nil_r.
+    destruct HO as (H1 & H2 & H3 & H4 & H5 & H6 & H7 & H8).
+    split; [eexists; rewrite H1; rewrite <- ?app_assoc; reflexivity|].
+    split; [clear - H2; rewrite !app_length in H2; rewrite app_length; lia|]. split; [rewrite H6, H7; cbn; lia|]. split; [split; [congruence|apply close_lastb_snoc; exact H7]|]. split; [reflexivity|].
+    intro W. destruct (yc_failed (y_ch s n)) eqn:F; [|reflexivity]. destruct (H4 eq_refl). congruence.
+  Qed.
+
+  Lemma step_read s : YInv s -> YInv (ystep answer bound qcap s ARead).
+  Proof.
+    intros [Hf H]. unfold ystep. rewrite Hf.
+    destruct (y_dead s) eqn:Hd; [split; assumption|].
+    destruct (y_inwire s) as [|[n it] rest] eqn:Hi; [split; assumption|].
+    destruct (H n) as (HP & HO & HC).
+    (* the slot is there, and there is room *)
+    assert (Hslot : yc_slot_gone (y_ch s n) = false).
+    { destruct (yc_srv_closed (y_ch s n)) eqn:Ecl.
+      - destruct (HC eq_refl) as (_ & _ & _ & (G4 & _) & _). destruct (yc_slot_gone (y_ch s n)); [|reflexivity].
+        specialize (G4 eq_refl). rewrite Hi, projc_cons, N.eqb_refl in G4. discriminate.
+      - destruct (HO eq_refl) as (_ & _ & _ & _ & _ & _ & _ & H8). exact H8. }
+    assert (Hroom : N.of_nat (length (yc_replyq (y_ch s n))) <? qcap = true).
+    { apply N.ltb_lt. rewrite length_ritems.
+      destruct (yc_srv_closed (y_ch s n)) eqn:Ecl.
+      - destruct (HC eq_refl) as (_ & G2 & G3 & _). rewrite Hi, projc_cons, N.eqb_refl in G2, G3.
+        rewrite app_length in G2. destruct it; cbn in G2, G3; rewrite ?app_length in *; lia.
+      - destruct (HO eq_refl) as (_ & H2 & _ & _ & _ & H6 & H7 & _). unfold inflight in H2.
+        rewrite Hi, projc_cons, N.eqb_refl in H2, H7. rewrite !app_length in H2.
+        destruct it; cbn in H2, H7; [|discriminate]. lia. }
+    rewrite Hslot, Hroom.
+    destruct it as [v|].
+    - (* a reply *)
+      split; [reflexivity|]. intro m. destruct (N.eq_dec m n) as [->|Hmn].
+      + unfold chan_inv. cbn [y_ch]. unfold yupd. rewrite !N.eqb_refl. fields.
+        split; [exact HP|]. split.
+        * intro E. specialize (HO E). unfold open_inv, inflight in *. cbn [y_ch y_inwire y_outwire y_outbuf y_seen y_dead].
+          unfold yupd. rewrite !N.eqb_refl. fields. rewrite Hi, projc_cons, N.eqb_refl in HO.
+          rewrite rvals_app, nverdicts_app. change (rvals [RVal v]) with [v]. change (nverdicts [RVal v]) with 0%nat.
+          change (wvals ([WReply v] ++ projc n rest)) with (v :: wvals (projc n rest)) in HO.
+          change (ncloses ([WReply v] ++ projc n rest)) with (ncloses (projc n rest)) in HO.
+          rewrite <- !app_assoc. cbn [app] in *.
+          destruct HO as (H1 & H2 & H3 & H4 & H5 & H6 & H7 & H8).
+          split; [exact H1|]. split; [rewrite !app_length in *; cbn [length] in *; lia|]. split.
+          { intro F. specialize (H3 F). rewrite !app_length in *. cbn [length] in *. lia. }
+          split; [intro F; destruct (H4 F) as [D _]; congruence|]. split; [exact H5|]. split; [lia|]. split; [exact H7|exact H8].
+        * intro E. specialize (HC E). unfold closed_inv in *. cbn [y_ch y_inwire]. unfold yupd. rewrite !N.eqb_refl. fields.
+          rewrite Hi, projc_cons, N.eqb_refl in HC.
+          rewrite rvals_app, nverdicts_app. change (rvals [RVal v]) with [v]. change (nverdicts [RVal v]) with 0%nat.
+          change (wvals ([WReply v] ++ projc n rest)) with (v :: wvals (projc n rest)) in HC.
+          change (ncloses ([WReply v] ++ projc n rest)) with (ncloses (projc n rest)) in HC.
+          rewrite <- !app_assoc. cbn [app] in *.
+          destruct HC as ((tail & G1) & G2 & G3 & G4 & G5 & G6).
+          split; [exists tail; rewrite G1; rewrite <- !app_assoc; reflexivity|]. split; [rewrite !app_length in *; cbn [length] in *; lia|]. split; [lia|].
+          split; [split; [intro X; congruence|exact (close_lastb_tail (proj2 G4))]|]. split; [exact G5|exact G6].
+      + apply (@chan_inv_same m s); [|exact (H m)].
+        constructor; cbn [y_ch y_inwire y_outwire y_outbuf y_seen y_dead]; unfold yupd;
+          try (destruct (m =? n) eqn:E1; [apply N.eqb_eq in E1; congruence|]); try reflexivity; try (intro; assumption).
+        all: try (rewrite Hi, projc_cons; destruct (n =? m) eqn:E2; [apply N.eqb_eq in E2; congruence|]; reflexivity).
+        all: intro; congruence.
+    - (* the server's Channel.Close *)
+      split; [reflexivity|]. intro m. destruct (N.eq_dec m n) as [->|Hmn].
+      + unfold chan_inv. cbn [y_ch]. unfold yupd. rewrite !N.eqb_refl. fields.
+        split; [exact HP|]. split.
+        * intro E. specialize (HO E). destruct HO as (_ & _ & _ & _ & _ & _ & H7 & _).
+          rewrite Hi, projc_cons, N.eqb_refl in H7. cbn in H7. discriminate.
+        * intro E. specialize (HC E). unfold closed_inv in *. cbn [y_ch y_inwire]. unfold yupd. rewrite !N.eqb_refl. fields.
+          rewrite Hi, projc_cons, N.eqb_refl in HC.
+          rewrite rvals_app, nverdicts_app. change (rvals [RVerdict]) with (@nil N). change (nverdicts [RVerdict]) with 1%nat.
+          change (wvals ([WClose] ++ projc n rest)) with (wvals (projc n rest)) in HC.
+          change (ncloses ([WClose] ++ projc n rest)) with (S (ncloses (projc n rest))) in HC.
+          rewrite app_nil_r.
+          destruct HC as (G1 & G2 & G3 & G4 & G5 & G6).
+          split; [exact G1|]. split; [exact G2|]. split; [lia|]. split.
+          { destruct G4 as [_ G7]. cbn [app close_lastb] in G7.
+            destruct (projc n rest) as [|w tl] eqn:Er; [split; [reflexivity|reflexivity]|discriminate]. }
+          split; [exact G5|exact G6].
+      + apply (@chan_inv_same m s); [|exact (H m)].
+        constructor; cbn [y_ch y_inwire y_outwire y_outbuf y_seen y_dead]; unfold yupd;
+          try (destruct (m =? n) eqn:E1; [apply N.eqb_eq in E1; congruence|]); try reflexivity; try (intro; assumption).
+        all: try (rewrite Hi, projc_cons; destruct (n =? m) eqn:E2; [apply N.eqb_eq in E2; congruence|]; reflexivity).
+        all: intro; congruence.
+  Qed.
 
   Lemma YInv_step s a : YInv s -> YInv (ystep answer bound qcap s a).
   Proof.
-    intros [Hf H]. unfold ystep. rewrite Hf.
-    destruct a as [n|n|n k|k| |n| | ].
-    - (* ASend *)
-      destruct (yc_wait (y_ch s n)) eqn:Hw; [split; assumption|].
-      destruct (yc_failed (y_ch s n)) eqn:Hfl; [split; assumption|]. cbn [orb].
-      destruct (yc_prog (y_ch s n)) as [|x rest] eqn:Hp; [split; assumption|].
-      destruct (y_dead s) eqn:Hd.
-      + (* the send fails *)
-        split; [exact Hf|]. open m H. chan_cases m n; [|exact H]. fields.
-        destruct H as (H1 & H2 & H3 & H4 & H5). rewrite Hp in H3.
-        split; [exact H1|]. split; [discriminate|]. split; [exact H3|]. split; [intros _; split; [exact Hd|reflexivity]|exact H5].
-      + destruct (_ <? bound); [|split; assumption].
-        split; [exact Hf|]. open m H. chan_cases m n; [|exact H]. fields.
-        rewrite Hw, Hp, Hfl in H. destruct H as (H1 & H2 & H3 & H4 & H5). specialize (H2 eq_refl). norm.
-        split; [|split; [|split; [|split]]].
-        * rewrite H1. rewrite <- ?app_assoc. reflexivity.
-        * intros _. normlen. destruct (is_sync x); cbn [length map]; lia.
-        * exact H3.
-        * discriminate.
-        * rewrite <- H5. rewrite <- ?app_assoc. reflexivity.
-    - (* ARecv *)
-      destruct (yc_wait (y_ch s n)) eqn:Hw; [|split; assumption].
-      destruct (yc_replyq (y_ch s n)) as [|v rest] eqn:Hr.
-      + destruct (y_dead s) eqn:Hd; [|split; assumption].
-        split; [exact Hf|]. open m H. chan_cases m n; [|exact H]. fields.
-        rewrite Hr in H. destruct H as (H1 & H2 & H3 & H4 & H5).
-        split; [exact H1|]. split; [discriminate|]. split; [exact H3|]. split; [intros _; split; [exact Hd|reflexivity]|exact H5].
-      + split; [exact Hf|]. open m H. chan_cases m n; [|exact H]. fields.
-        rewrite Hw, Hr in H. destruct H as (H1 & H2 & H3 & H4 & H5). norm.
-        split; [|split; [|split; [|split]]].
-        * rewrite H1. rewrite <- ?app_assoc. reflexivity.
-        * intro E. specialize (H2 E). cbn [app length] in H2. lia.
-        * exact H3.
-        * intro E. destruct (H4 E). discriminate.
-        * exact H5.
-    - (* ADrain *)
-      destruct (y_dead s) eqn:Hd; [split; assumption|].
-      split; [reflexivity|]. open m H. rewrite Hd in *.
-      chan_cases m n.
-      + fields.
-        rewrite <- (firstn_skipn k (yc_mail (y_ch s n))) in H at 1 2 3. norm.
-        rewrite projc_map_same. norm. exact H.
-      + rewrite projc_app, (projc_map_other _ Hmn). norm. exact H.
-    - (* AWrite *)
-      destruct (y_dead s) eqn:Hd; [split; assumption|].
-      split; [reflexivity|]. open m H. rewrite Hd in *.
-      rewrite <- (firstn_skipn k (y_outbuf s)) in H at 1 2 3. norm. exact H.
-    - (* ASrvRead *)
-      destruct (y_outwire s) as [|[n x] rest] eqn:Ho; [split; assumption|].
-      split; [reflexivity|]. open m H.
-      rewrite Ho, projc_cons in H.
-      rewrite (projc_app m (y_seen s)), (projc_cons n m x []). change (projc m (@nil (N * call))) with (@nil call).
-      destruct (is_sync x) eqn:Hs.
-      + chan_cases m n.
-        * fields.
-          rewrite N.eqb_refl in *. norm. rewrite Hs in H. cbn [map app] in *. exact H.
-        * destruct (n =? m) eqn:E; [apply N.eqb_eq in E; congruence|]. norm. exact H.
-      + destruct (n =? m) eqn:E; [|norm; exact H].
-        norm. rewrite Hs in H. cbn [map app] in *. exact H.
-    - (* ASrvAnswer *)
-      destruct (yc_pend (y_ch s n)) as [|r rest] eqn:Hp; [split; assumption|].
-      split; [reflexivity|]. open m H.
-      rewrite projc_app, projc_cons. change (projc m (@nil (N * N))) with (@nil N).
-      chan_cases m n.
-      + fields.
-        rewrite N.eqb_refl. rewrite Hp in H. norm. cbn [map app] in *. exact H.
-      + destruct (n =? m) eqn:E; [apply N.eqb_eq in E; congruence|]. norm. exact H.
-    - (* ARead *)
-      destruct (y_dead s) eqn:Hd; [split; assumption|].
-      destruct (y_inwire s) as [|[n v] rest] eqn:Hi; [split; assumption|].
-      assert (Hroom : N.of_nat (length (yc_replyq (y_ch s n))) <? qcap = true).
-      { pose proof (H n) as (_ & H2 & _ & H4 & _). unfold inflight in H2. rewrite Hi in H2.
-        rewrite projc_cons, N.eqb_refl in H2.
-        destruct (yc_failed (y_ch s n)) eqn:Hfl; [destruct (H4 eq_refl); congruence|].
-        specialize (H2 eq_refl).
-        rewrite !app_length in H2. cbn [length app] in H2. apply N.ltb_lt.
-        destruct (yc_wait (y_ch s n)); lia. }
-      rewrite Hroom.
-      split; [reflexivity|]. open m H. rewrite Hd in *.
-      rewrite Hi in H. rewrite projc_cons in H.
-      chan_cases m n.
-      + fields.
-        rewrite N.eqb_refl in H. norm. cbn [app] in *. exact H.
-      + destruct (n =? m) eqn:E; [apply N.eqb_eq in E; congruence|]. exact H.
-    - (* ADie *)
-      split; [reflexivity|]. open m H. destruct H as (H1 & H2 & H3 & H4 & H5).
-      split; [exact H1|]. split; [exact H2|]. split; [exact H3|]. split; [|exact H5]. intro E. split; [reflexivity|]. apply H4. exact E.
+    destruct a; [apply step_send|apply step_recv|apply step_drain|apply step_write|apply step_srvread
+                |apply step_answer|apply step_close|apply step_read|apply step_die].
   Qed.
 
   Lemma YInv_run sched : forall s, YInv s -> YInv (yrun answer bound qcap s sched).
@@ -165,100 +452,99 @@ Section Safety.
     apply IH. apply YInv_step. exact H.
   Qed.
 
+  Lemma prefix_of_app (r rest : list N) (l : list N) :
+    l = r ++ rest -> r = firstn (length r) l.
+  Proof. intros ->. rewrite firstn_app, Nat.sub_diag, firstn_all. cbn [firstn]. rewrite app_nil_r. reflexivity. Qed.
+
   (* EVERY schedule: any number of channels, any interleaving of callers, I/O thread and
-     server, any cross-channel order of the server's answers, the I/O thread ending at any
-     moment *)
+     server, any cross-channel order of the server's answers, the server closing any channel at
+     any moment, the I/O thread ending at any moment *)
   Theorem sys_own_reply sched :
     let s := yrun answer bound qcap (init_sys progs) sched in
     y_fail s = false /\
     forall n, let c := y_ch s n in
       yc_results c = map (answer n) (firstn (length (yc_results c)) (syncs (yc_issued c))) /\
-      (yc_wait c = false -> yc_failed c = false -> yc_results c = map (answer n) (syncs (yc_issued c))) /\
-      (yc_wait c = true -> exists r, syncs (yc_issued c) = firstn (length (yc_results c)) (syncs (yc_issued c)) ++ [r] /\
-                                    inflight answer s n = [answer n r]) /\
-      (yc_failed c = false -> length (yc_replyq c) <= 1)%nat /\
+      (yc_srv_closed c = false -> yc_wait c = false -> yc_failed c = false ->
+       yc_results c = map (answer n) (syncs (yc_issued c))) /\
+      (yc_srv_closed c = false -> yc_wait c = true ->
+       exists r, syncs (yc_issued c) = firstn (length (yc_results c)) (syncs (yc_issued c)) ++ [r] /\
+                 inflight answer s n = [answer n r]) /\
+      (length (yc_replyq c) <= 2)%nat /\
       yc_issued c ++ yc_prog c = progs n /\
-      (yc_failed c = true -> y_dead s = true).
+      (yc_failed c = true -> y_dead s = true \/ yc_srv_closed c = true).
   Proof.
     cbn zeta. pose proof (YInv_run sched YInv_init) as [Hf H]. split; [exact Hf|].
-    intro n. destruct (H n) as (H1 & H2 & H3 & H4 & H5).
+    intro n. destruct (H n) as (HP & HO & HC).
     set (s := yrun answer bound qcap (init_sys progs) sched) in *.
-    set (c := y_ch s n) in *.
-    assert (Hpre : yc_results c = map (answer n) (firstn (length (yc_results c)) (syncs (yc_issued c)))).
-    { rewrite <- firstn_map, H1, firstn_app, Nat.sub_diag, firstn_all. cbn [firstn]. rewrite app_nil_r. reflexivity. }
+    assert (Hpre : yc_results (y_ch s n) = map (answer n) (firstn (length (yc_results (y_ch s n))) (syncs (yc_issued (y_ch s n))))).
+    { rewrite <- firstn_map. destruct (yc_srv_closed (y_ch s n)) eqn:Ecl.
+      - destruct (HC eq_refl) as ((tail & G1) & _). exact (prefix_of_app G1).
+      - destruct (HO eq_refl) as (H1 & _). exact (prefix_of_app H1). }
     split; [exact Hpre|]. split; [|split; [|split; [|split]]].
-    - intros Hw Hfl. specialize (H2 Hfl). rewrite Hw in H2. apply length_zero_iff_nil in H2.
-      rewrite H2, app_nil_r in H1. symmetry. exact H1.
-    - intro Hw.
-      assert (Hfl : yc_failed c = false).
-      { destruct (yc_failed c) eqn:E; [|reflexivity]. destruct (H4 eq_refl). congruence. }
-      specialize (H2 Hfl). rewrite Hw in H2.
+    - intros Ecl Hw Hfl. destruct (HO Ecl) as (H1 & _ & H3 & _). specialize (H3 Hfl). rewrite Hw in H3.
+      apply length_zero_iff_nil in H3. rewrite H3, app_nil_r in H1. symmetry. exact H1.
+    - intros Ecl Hw. destruct (HO Ecl) as (H1 & _ & H3 & H4 & _).
+      assert (Hfl : yc_failed (y_ch s n) = false).
+      { destruct (yc_failed (y_ch s n)) eqn:E; [|reflexivity]. destruct (H4 eq_refl). congruence. }
+      specialize (H3 Hfl). rewrite Hw in H3.
       destruct (inflight answer s n) as [|v [|v' t]] eqn:Ei; try discriminate.
-      assert (Hlen : length (syncs (yc_issued c)) = S (length (yc_results c))).
+      assert (Hlen : length (syncs (yc_issued (y_ch s n))) = S (length (yc_results (y_ch s n)))).
       { rewrite <- (map_length (answer n)), H1, app_length. cbn. lia. }
-      pose proof (firstn_skipn (length (yc_results c)) (syncs (yc_issued c))) as Hsplit.
-      destruct (skipn (length (yc_results c)) (syncs (yc_issued c))) as [|r [|r' t]] eqn:Es.
+      pose proof (firstn_skipn (length (yc_results (y_ch s n))) (syncs (yc_issued (y_ch s n)))) as Hsplit.
+      destruct (skipn (length (yc_results (y_ch s n))) (syncs (yc_issued (y_ch s n)))) as [|r [|r' t]] eqn:Es.
       + exfalso. apply (f_equal (@length N)) in Hsplit. rewrite app_length, firstn_length in Hsplit. cbn in Hsplit. lia.
       + exists r. split; [symmetry; exact Hsplit|].
         rewrite <- Hsplit in H1. rewrite map_app in H1. rewrite <- Hpre in H1. apply app_inv_head in H1.
         cbn in H1. congruence.
       + exfalso. apply (f_equal (@length N)) in Hsplit. rewrite app_length, firstn_length in Hsplit. cbn in Hsplit. lia.
-    - intro Hfl. specialize (H2 Hfl). unfold inflight in H2. fold c in H2. rewrite app_length in H2. destruct (yc_wait c); lia.
-    - exact H3.
-    - intro E. apply H4. exact E.
+    - rewrite length_ritems. destruct (yc_srv_closed (y_ch s n)) eqn:Ecl.
+      + destruct (HC eq_refl) as (_ & G2 & G3 & _). rewrite app_length in G2. lia.
+      + destruct (HO eq_refl) as (_ & H2 & _ & _ & _ & H6 & _). unfold inflight in H2.
+        rewrite app_length in H2. lia.
+    - exact HP.
+    - intro F. destruct (yc_srv_closed (y_ch s n)) eqn:Ecl; [right; reflexivity|]. left.
+      destruct (HO eq_refl) as (_ & _ & _ & H4 & _). exact (proj1 (H4 F)).
   Qed.
 
-  (* C01 AT THE LEVEL OF THE SYSTEM: what the server has read of channel n, followed by what is
-     still on its way (on the wire, in the out-buffer, in the mailbox), is exactly what caller n
-     issued, in order - no frame of a channel is lost, duplicated or overtaken by another frame
-     of the same channel, however the channels' frames interleave, whatever prefix each drain or
-     write takes; and what was issued is a prefix of the caller's program *)
-  Theorem sys_wire_order sched n :
-    let s := yrun answer bound qcap (init_sys progs) sched in
-    projc n (y_seen s) ++ projc n (y_outwire s) ++ projc n (y_outbuf s) ++ yc_mail (y_ch s n)
-      = yc_issued (y_ch s n) /\
-    yc_issued (y_ch s n) ++ yc_prog (y_ch s n) = progs n.
-  Proof.
-    cbn zeta. pose proof (YInv_run sched YInv_init) as [_ H].
-    destruct (H n) as (_ & _ & H3 & _ & H5). split; assumption.
-  Qed.
-
-  (* the reply queue never holds more than one item: the capacity the code gives it (2) is
-     never reached, the I/O thread's send never finds it full *)
+  (* THE BOUND OF 2 IS ENOUGH: with one reply and one verdict of room, the I/O thread's send never
+     finds a reply queue full, and no frame arrives for a channel whose slot is gone - under a
+     server that answers each request once and sends nothing on a channel after closing it *)
   Theorem sys_reply_queue_never_full sched :
     y_fail (yrun answer bound qcap (init_sys progs) sched) = false.
   Proof. exact (proj1 (sys_own_reply sched)). Qed.
 
-  (* NOBODY WAITS FOR NOTHING: while the I/O thread lives, whenever a caller is blocked its one
-     outstanding item is in one of the six stages, and the action that moves it on is enabled -
-     no reachable state is a deadlock *)
+  (* NOBODY WAITS FOR NOTHING: while the I/O thread lives, whenever a caller of a channel the
+     server has not closed is blocked, its one outstanding item is in one of the six stages, and
+     the action that moves it on is enabled - no reachable state is a deadlock *)
   Theorem sys_waiting_progress sched n :
     let s := yrun answer bound qcap (init_sys progs) sched in
-    yc_wait (y_ch s n) = true ->
+    yc_srv_closed (y_ch s n) = false -> yc_wait (y_ch s n) = true ->
     yc_replyq (y_ch s n) <> [] \/ y_inwire s <> [] \/ yc_pend (y_ch s n) <> [] \/
     y_outwire s <> [] \/ y_outbuf s <> [] \/ yc_mail (y_ch s n) <> [].
   Proof.
-    cbn zeta. intro Hw. pose proof (YInv_run sched YInv_init) as [_ H]. destruct (H n) as (_ & H2 & _ & H4 & _).
+    cbn zeta. intros Ecl Hw. pose proof (YInv_run sched YInv_init) as [_ H]. destruct (H n) as (_ & HO & _).
+    destruct (HO Ecl) as (_ & _ & H3 & H4 & _).
     set (s := yrun answer bound qcap (init_sys progs) sched) in *.
     assert (Hfl : yc_failed (y_ch s n) = false).
     { destruct (yc_failed (y_ch s n)) eqn:E; [|reflexivity]. destruct (H4 eq_refl). congruence. }
-    specialize (H2 Hfl). rewrite Hw in H2. unfold inflight in H2.
+    specialize (H3 Hfl). rewrite Hw in H3. unfold inflight in H3.
     destruct (yc_replyq (y_ch s n)); [|left; discriminate].
     destruct (y_inwire s); [|right; left; discriminate].
     destruct (yc_pend (y_ch s n)); [|right; right; left; discriminate].
     destruct (y_outwire s); [|right; right; right; left; discriminate].
     destruct (y_outbuf s); [|right; right; right; right; left; discriminate].
     destruct (yc_mail (y_ch s n)); [|right; right; right; right; right; discriminate].
-    cbn in H2. discriminate.
+    cbn in H3. discriminate.
   Qed.
 
-  (* WHEN THE CONNECTION DIES NOBODY HANGS (C05), in every reachable state in which the I/O
-     thread has ended - whenever and for whatever reason it ended, whatever was in flight:
-     a blocked caller's recv returns at once (the reply that was already queued, or an error),
-     and a caller's next call returns an error at once without handing anything over *)
+  (* WHEN THE CONNECTION DIES - OR THE SERVER HAS CLOSED THE CHANNEL - NOBODY HANGS (C05, C09): in
+     every reachable state in which the I/O thread has ended, or has processed the server's close
+     of channel n, a blocked caller's recv returns at once (the reply that was already queued, the
+     verdict, or an error), and a caller's next call returns an error at once without handing
+     anything over *)
   Theorem sys_dead_releases sched n :
     let s := yrun answer bound qcap (init_sys progs) sched in
-    y_dead s = true ->
+    y_dead s = true \/ yc_slot_gone (y_ch s n) = true ->
     yc_wait (y_ch (ystep answer bound qcap s (ARecv n)) n) = false /\
     yc_wait (y_ch (ystep answer bound qcap s (ASend n)) n) = yc_wait (y_ch s n) /\
     (yc_wait (y_ch s n) = false -> yc_failed (y_ch s n) = false -> yc_prog (y_ch s n) <> [] ->
@@ -267,13 +553,31 @@ Section Safety.
   Proof.
     cbn zeta. intro Hd. pose proof (YInv_run sched YInv_init) as [Hf _].
     set (s := yrun answer bound qcap (init_sys progs) sched) in *.
-    unfold ystep. rewrite Hf, Hd. split; [|split].
+    assert (Hg : y_dead s || yc_slot_gone (y_ch s n) = true) by (apply orb_true_iff; exact Hd).
+    unfold ystep. rewrite Hf, Hg. split; [|split].
     - destruct (yc_wait (y_ch s n)) eqn:Hw; [|exact Hw].
-      destruct (yc_replyq (y_ch s n)); cbn [with_ch y_ch]; rewrite yupd_same; reflexivity.
+      destruct (yc_replyq (y_ch s n)) as [|[v|] r]; cbn [with_ch y_ch]; rewrite yupd_same; reflexivity.
     - destruct (yc_wait (y_ch s n)) eqn:Hw; cbn [orb]; [exact Hw|].
       destruct (yc_failed (y_ch s n)); [exact Hw|].
       destruct (yc_prog (y_ch s n)); [exact Hw|]. cbn [with_ch y_ch]. rewrite yupd_same. reflexivity.
     - intros Hw Hfl Hp. rewrite Hw, Hfl. cbn [orb].
       destruct (yc_prog (y_ch s n)); [contradiction|]. cbn [with_ch y_ch]. rewrite yupd_same. split; reflexivity.
+  Qed.
+
+  (* C01 AT THE LEVEL OF THE SYSTEM: for a channel the server has not closed, what the server has
+     read of it, followed by what is still on its way (on the wire, in the out-buffer, in the
+     mailbox), is exactly what caller n issued, in order - no frame of a channel is lost,
+     duplicated or overtaken by another frame of the same channel, however the channels' frames
+     interleave, whatever prefix each drain or write takes; and what was issued is a prefix of
+     the caller's program *)
+  Theorem sys_wire_order sched n :
+    let s := yrun answer bound qcap (init_sys progs) sched in
+    yc_srv_closed (y_ch s n) = false ->
+    projc n (y_seen s) ++ projc n (y_outwire s) ++ projc n (y_outbuf s) ++ yc_mail (y_ch s n)
+      = yc_issued (y_ch s n) /\
+    yc_issued (y_ch s n) ++ yc_prog (y_ch s n) = progs n.
+  Proof.
+    cbn zeta. intro Ecl. pose proof (YInv_run sched YInv_init) as [_ H].
+    destruct (H n) as (HP & HO & _). destruct (HO Ecl) as (_ & _ & _ & _ & H5 & _). split; assumption.
   Qed.
 End Safety.
